@@ -27,7 +27,10 @@ ASSUMPTIONS = ['whisper and ceres are absent: stand-in modules record file-syste
 SHELLISH = ['a.$VERIF_DOTS.$VERIF_DOTS.$VERIF_DOTS.x', 'a.${VERIF_DOTS}.${VERIF_DOTS}.${VERIF_DOTS}.x', '$VERIF_ABS', 'x.$VERIF_ABS.y', 'servers.$VERIF_NAME.load',
             'servers.graphite01.load', 'servers.${VERIF_NAME}.load', '$HOME', 'a.$HOME', '${HOME}.x', '~', '~.x', '~root.x', 'a.~.b', '%VERIF_DOTS%', 'a.%VERIF_DOTS%.%VERIF_DOTS%.b',
             'x;t=$VERIF_DOTS/$VERIF_DOTS/$VERIF_DOTS/y', 'x;t=${VERIF_ABS}', 'a.$(id).b', 'a.`id`.b', 'a.$VERIF_UNSET.b', '$', '$$', 'a.$.b']
-CLASSICS = SHELLISH + ['../x', '/abs', '/etc/passwd', 'a/../../b', '..;a=b', ';a=../..', '....//....//x', '/../../x', '//x', '/.x',
+# names that end in (or contain) the backends' own file / directory suffixes
+SUFFIXISH = ['app.db', 'app.db.wsp', 'app.db.wsp.wsp', 'wsp', 'app.wsp.db', 'app.db.WSP', 'app.db.slice', 'app.db.ceres-node', 'app.db..wsp', 'app.dbwsp',
+             'app.db.tmp', 'app.db.lock', 'app.db.wsp;a=b', 'app.db;a=wsp']
+CLASSICS = SHELLISH + SUFFIXISH + ['../x', '/abs', '/etc/passwd', 'a/../../b', '..;a=b', ';a=../..', '....//....//x', '/../../x', '//x', '/.x',
             './x', 'a/./b', '~/x', '~root', '_tagged/../../x', '_tagged.aaa.bbb.x', 'a;b=/../../..', 'a;b=/abs',
             '/;a=b', '../..;a=b', 'a.b./../..', '.', '..', '...', '/', '//', 'a/', '/a', 'a//b', 'a/..', '\\..\\x',
             'a;b=c/../../../../../../x', '..a', 'a..', '.a', 'a.', ';', ';=', '=;', 'a;', 'a;b', 'a;=b', 'a;b=',
